@@ -158,7 +158,10 @@ def payback_oracle(cum: list[float], p: float):
             return f'payback {p} lies in no year in which cumulative cash flow turns from non-positive to positive (turn years: {turns})'
     else:
         if turns:
-            return None  # reported as N/A although a turn year exists: not what the statement forbids (left to the correspondence)
+            # 0.0 is the code's "never pays back" (shown as N/A).  The statement wants the payback *implied by the series*: a series that turns
+            # from non-positive to positive implies one, and N/A is for the series that never does.
+            return (f'payback reported as 0.0 (= N/A) although the cumulative cash flow turns from non-positive to positive (turn years: {turns}; '
+                    f'values around the last turn: {cum[max(0, turns[-1] - 2):turns[-1] + 1]})')
     return None
 
 
@@ -238,7 +241,7 @@ def evaluate(chk: core.Check, cases):
         why = payback_oracle(py['TotalCummRevenue'], pb)
         fixed, pinned = core.parse_rat(kv['paybackFixed']), core.parse_rat(kv['paybackPinned'])
         if why:
-            chk.fail('C04/payback/outside-turn-year', why, {**base, 'reported_payback': pb, 'cumulative': py['TotalCummRevenue'],
+            chk.fail('C04/payback/na-although-turns-positive' if pb == 0 else 'C04/payback/outside-turn-year', why, {**base, 'reported_payback': pb, 'cumulative': py['TotalCummRevenue'],
                      'model_repaired_loop': float(fixed), 'model_pinned_loop': float(pinned)})
         elif not core.close(pb, fixed, 1e-9, abs_tol=1e-9):
             chk.broken('C04/payback/correspondence', 'reported payback differs from the model of the (repaired) loop although the property clause holds',
